@@ -141,6 +141,36 @@ def check_text(t, rendering, kind, faulty, case_fn):
         t.fail(f"C08|{rendering}|{kind}|{route}|accepted", case_fn(faulty), f"{faulty[:300]!r} -> a tree rooted at <{r.tag}>")
 
 
+def byte_faults(t, text, sp, case0):
+    """damage that only shows at the byte level: a byte the declared charset cannot decode inside the name of every
+    aggregate end tag, and behind it - in a v1 file declared UTF-8 (CHARSET:NONE) and one declared Windows-1252.  Whatever
+    the decoder does with such a byte, the end tag no longer names its element / text follows it."""
+    from ofxtools.Parser import OFXTree
+
+    ends = [(a, b, v) for k, v, leaf, a, b in sp if k == "E" and leaf is None]
+    for charset, codec, junk in (("NONE", "utf_8", b"\xff"), ("NONE", "utf_8", b"\xc3"), ("1252", "cp1252", b"\x81")):
+        head = H.render_v1(H.v1_fields(102, encoding="USASCII", charset=charset)).encode("ascii")
+        try:
+            raw = text.encode(codec)
+        except UnicodeEncodeError:
+            continue
+        if len(raw) != len(text):
+            continue  # offsets below are character offsets
+        for a, b, v in ends:
+            for kind, data in (("end-tag-damaged-by-undecodable-byte", raw[: a + 3] + junk + raw[a + 3 :]), ("undecodable-bytes-after-end-tag", raw[:b] + junk + junk + raw[b:])):
+                t.count("evaluations")
+                t.count("faulty-texts")
+                try:
+                    r = OFXTree().parse(io.BytesIO(head + data))
+                except Exception:
+                    t.outcome("rejected-parse")
+                    continue
+                if r is None:
+                    t.outcome("no-tree-parse")
+                    continue
+                t.fail(f"C08|sgml|{kind}|parse|accepted", dict(case0, kind=kind, hex=(head + data).hex(), route="bytes"), f"{data[max(0, a - 20): b + 10]!r} -> a tree rooted at <{r.tag}>")
+
+
 def small_work(chunk):
     t = Tally()
     for term, full in chunk:
@@ -164,6 +194,8 @@ def small_work(chunk):
                 t.fail(f"C08|{rendering}|valid-body|feed|rejected", {"text": text, "rendering": rendering}, f"{text!r}: {e}")
             for kind, faulty in faults(text, sp, full):
                 check_text(t, rendering, kind, faulty, lambda f: {"text": f, "rendering": rendering, "kind": kind})
+            if rendering == "sgml":
+                byte_faults(t, text, sp, {"text": text, "rendering": rendering})
         t.count("bodies")
     return t
 
@@ -180,6 +212,8 @@ def doc_work(chunk):
             text, sp = spans(sdoc, lo)
             for kind, faulty in faults(text, sp, full):
                 check_text(t, rendering, kind, faulty, lambda f: {"text": f, "rendering": rendering, "kind": kind})
+            if rendering == "sgml":
+                byte_faults(t, text, sp, {"text": text, "rendering": rendering})
         t.count("bodies")
     return t
 
@@ -271,7 +305,7 @@ def run(ctx):
                  "all trees <=4 nodes with <=1 non-default leaf (every byte truncation) + the remaining 4-node trees (token-level truncations)") +
         f" over the C02 alphabets, in XML and SGML rendering and (two or more data elements) with every data element CDATA-wrapped, + MIN/MAXS{'/MAXD' if ctx.thorough else ''} documents of {len(ROOTS)} realistic roots; x every single fault: "
         "truncation, each aggregate end tag deleted / duplicated / misspelled (2 ways) / replaced by every other element's name, adjacent end tags transposed, stray end "
-        "tag (2) or stray text (2) after every end tag, second top-level element (3 behind, 2 in front of the root), stray end tag / unclosed start tag in front of the root; faulty texts the strict reference reader still accepts are skipped; each remaining text "
+        "tag (2) or stray text (2) after every end tag, second top-level element (3 behind, 2 in front of the root), an undecodable byte inside / behind every aggregate end tag of the v1 files (UTF-8 and Windows-1252), stray end tag / unclosed start tag in front of the root; faulty texts the strict reference reader still accepts are skipped; each remaining text "
         "goes through TreeBuilder.feed+close, OFXTree.parse, and the parse of an OFXTree that has read a well-formed file before; + files parsed by path: every same-length fault of the documents written over the well-formed file "
         "(same path, size and modification time) after that one was parsed; distinct_nontrivial = malformed texts",
         "bodies": tally.counts.get("bodies", 0),
@@ -288,6 +322,16 @@ def _size(term):
 
 def replay(ctx, case):
     t = Tally()
+    if case.get("route") == "bytes":
+        from ofxtools.Parser import OFXTree
+
+        try:
+            r = OFXTree().parse(io.BytesIO(bytes.fromhex(case["hex"])))
+        except Exception as e:
+            print("  refused:", repr(e)[:200])
+            return False
+        print("  accepted:", r)
+        return r is not None
     if case.get("route") == "path":
         import os
         import tempfile
